@@ -53,8 +53,14 @@ def build_harness(engines=None):
     cmd = ["cargo", "build", "--release", "--offline", "-q"]
     for e in (engines or []):
         cmd += ["-p", "h_" + e]
-    p = subprocess.run(cmd, cwd=HARNESS_DIR,
-                       env=env, stdout=subprocess.PIPE, stderr=subprocess.STDOUT, text=True)
+    for attempt in range(8):
+        p = subprocess.run(cmd, cwd=HARNESS_DIR,
+                           env=env, stdout=subprocess.PIPE, stderr=subprocess.STDOUT, text=True)
+        # another engine's crate may be half-created while it is being developed: wait and retry
+        if p.returncode != 0 and "failed to load manifest for workspace member" in p.stdout:
+            time.sleep(10)
+            continue
+        break
     if p.returncode != 0:
         # A tree that does not compile is a tool error, not a verdict.
         sys.stdout.write(p.stdout[-6000:])
@@ -204,6 +210,7 @@ class Report:
         self.t0 = time.time()
         self.violations = []   # (signature, replay_path, what)
         self.known_hit = {}    # signature -> what
+        self.max_replays = 20
         self.coverage = {}
         self.assumptions = []
         self.known = [k for k in load_known() if k["property"] == pid and k["status"] == "known"]
@@ -216,7 +223,7 @@ class Report:
                 if signature not in self.known_hit:
                     self.known_hit[signature] = k.get("what", what)
                 return False
-        if len(self.violations) >= 20:
+        if len(self.violations) >= self.max_replays:
             self.violations.append((signature, None, what))
             return True
         name = "%s_%s_%d.json" % (self.pid, re.sub(r"[^A-Za-z0-9_.-]+", "_", signature)[:80], len(self.violations))
